@@ -25,6 +25,10 @@ def _copy(t):
     return json.loads(json.dumps(t))
 
 
+def _safe(name):
+    return "".join(ch if (ch.isalnum() or ch in "-_.:+") else "_" for ch in name)[:150]
+
+
 def _drop_step(trace, idx):
     t = _copy(trace)
     st = t["steps"][idx]
@@ -208,7 +212,7 @@ def run_check(pid, tier, seed, budget=None, time_cap=None, repo_root=None, write
                 harness_errors.append({"seed": res["seed"],
                                        "harness_error": f"violation {cls} did not reproduce on re-execution: {v['detail'][:300]}"})
                 continue
-            path = engine.save_replay(mt, mv, f"{pid}-{res['seed']}-{'-'.join(str(c) for c in cls[1:] if c)}.json".replace("/", "_"))
+            path = engine.save_replay(mt, mv, _safe(f"{pid}-{res['seed']}-{'-'.join(str(c) for c in cls[1:] if c)}") + ".json")
             code, rr, txt = engine.replay_fresh(path)
             if code != 1 or not rr or not any(x["cls"][:2] == list(cls)[:2] for x in rr.get("violations", [])):
                 harness_errors.append({"seed": res["seed"],
